@@ -368,27 +368,31 @@ def aliasKeyMatches (nocase : Bool) (uri : Bytes) (kv : Bytes × Bytes) : Bool :
   kv.1.length ≤ uri.length &&
     (if nocase then eqIcase (uri.take kv.1.length) kv.1 else uri.take kv.1.length == kv.1)
 
+/-- length of r->physical.basedir without its trailing slash: where the url-path starts in
+    r->physical.path -/
+def baseLen (basedir : Bytes) : Nat :=
+  if basedir.getLast? = some slash then basedir.length - 1 else basedir.length
+
+/-- what follows the matched alias is "." or ".." as a whole path segment -/
+def dotSegAhead : Bytes → Bool
+  | d :: t =>
+    d = dot &&
+      (let t' := match t with
+                 | d2 :: t2 => if d2 = dot then t2 else t
+                 | [] => t
+       t'.isEmpty || t'.head? = some slash)
+  | [] => false
+
 /-- mod_alias_remap(): `basedir` = r->physical.basedir, `path` = r->physical.path -/
 def aliasRemap (nocase : Bool) (aliases : List (Bytes × Bytes)) (basedir path : Bytes) : AliasRes :=
-  let bl := if basedir.getLast? = some slash then basedir.length - 1 else basedir.length
-  if path.isEmpty || path.length < bl then .unchanged else
-  let uri := path.drop bl
-  match aliases.find? (aliasKeyMatches nocase uri) with
+  if path.isEmpty || path.length < baseLen basedir then .unchanged else
+  match aliases.find? (aliasKeyMatches nocase (path.drop (baseLen basedir))) with
   | none => .unchanged
   | some (k, v) =>
-    let after := uri.drop k.length
-    let dotseg : Bool :=
-      match after with
-      | d :: t =>
-        d = dot &&
-          (let t' := match t with
-                     | d2 :: t2 => if d2 = dot then t2 else t
-                     | [] => t
-           t'.isEmpty || t'.head? = some slash)
-      | [] => false
-    if dotseg && !k.isEmpty && k.getLast? ≠ some slash && !v.isEmpty && v.getLast? = some slash then
+    if dotSegAhead ((path.drop (baseLen basedir)).drop k.length) && !k.isEmpty && k.getLast? ≠ some slash
+        && !v.isEmpty && v.getLast? = some slash then
       .forbidden
-    else .remapped (v ++ after) v
+    else .remapped (v ++ (path.drop (baseLen basedir)).drop k.length) v
 
 /-! ## mod_simple_vhost / mod_evhost document roots -/
 
